@@ -95,7 +95,9 @@ def make_plan(ctx):
     others = [p for p in PRESETS if p != "baseline"]
     if ctx.quick:
         c1, c2 = rng.sample([c for c in COUNTRIES if c not in ("SLV", "ALB", "ECU")], 2)
-        pairs = [rng.choice(PATCHED), (c1, "baseline"), (c2, "baseline"), (c1, rng.choice(others))]
+        pt = rng.choice(PATCHED)
+        # the fourth pair reuses the patched pair's preset (hence, in a history, the same caller dictionary)
+        pairs = [pt, (c1, "baseline"), (c2, "baseline"), (c1, pt[1])]
     else:
         cs = rng.sample([c for c in COUNTRIES if c not in ("SLV", "ALB", "ECU")], 5)
         pairs = rng.sample(PATCHED[:4], 2) + [PATCHED[4]] + [(c, "baseline") for c in cs[:3]]
@@ -245,8 +247,7 @@ def analyse_batch(ctx, bname, out, steps, alone, canon, name_of):
             problems.append({"kind": "shared-state", "batch": bname, "step": si, "cell": d["cell"], "before": d["before"],
                              "after": d["after"]})
         if not s["options_unchanged"]:
-            problems.append({"kind": "options-mutated", "batch": bname, "step": si, "before": s.get("options_before"),
-                             "after": s.get("options_after")})
+            problems.append({"kind": "options-mutated", "batch": bname, "step": si, "diff": s.get("options_diff")})
         for cname, r in s["results"].items():
             if r["late_digest"] != r["digest"]["all"]:
                 problems.append({"kind": "result-modified-later", "batch": bname, "step": si, "country": cname})
@@ -439,7 +440,8 @@ def run(ctx):
                     f"{pr['before'][:80]} -> {pr['after'][:80]}")
         elif pr["kind"] == "options-mutated":
             key = "C14:options-mutated@run_model_no_trade"
-            what = f"the caller's scenario_option dictionary was modified by the run: {pr['before']} -> {pr['after']}"
+            what = (f"the caller's scenario_option dictionary was modified by run {batches[k][pr['step']]['countries']}/"
+                    f"{batches[k][pr['step']]['preset']}: {pr['diff']}")
         else:
             key = "C14:result-modified-by-later-step"
             what = f"the Interpreter returned for {pr['country']} was modified by a later step of the history"
@@ -448,6 +450,7 @@ def run(ctx):
         done.add(key)
         ctx.violation(key, what, {"kind": "counterexample", "check": pr["kind"], "presets": PRESETS, "history_A": hist,
                                   "detail": pr})
+    ctx.notes.pop("_reported", None)
     s0 = outs["batch0"]["steps"][0]
     ctx.sample({"history": [(s["countries"], s["preset"]) if s["kind"] == "run" else s["how"] for s in batches[-1]],
                 "alone_digest_of_first_pair": alone[pairs[0]]["sig"][:32], "first_step_headline": (list(s0["results"].values()) or [{}])[0].get("headline")})
@@ -482,7 +485,10 @@ def report_difference(ctx, hist, si, pr, a, so, k):
         ctx.log("shrink failed:", repr(e)[:200])
     if small is None:
         small, got = hist[:si + 1], so
-    parts = differing_parts(a["res"], got["results"].get(a["cname"]) if got["ok"] else None)
+    if got["ok"]:
+        parts = differing_parts(a["res"], got["results"].get(a["cname"]))
+    else:
+        parts = ["the run fails in history A: " + got.get("err", "?") + (" (alone: " + a["step"].get("err", "completes") + ")")]
     ctx.tie_ok = ctx.tie_ok  # (the tie is judged by the trace checks; a difference with a disciplined trace is reported there)
     ctx.violation(f"C14:history-dependence:{pr[0]}/{pr[1]}",
                   f"result of {pr} after {[(s.get('countries'), s.get('preset')) if s['kind'] == 'run' else s['how'] for s in small[:-1]] or 'a multi-country call'} "
@@ -495,23 +501,35 @@ def report_difference(ctx, hist, si, pr, a, so, k):
 def report_trace_problem(ctx, code, m, hist, out, canon):
     names = sorted(canon.cells, key=canon.cells.get)
     if m["kind"] == "log":
+        if "log" in ctx.notes.setdefault("_reported", []):
+            return
+        ctx.notes["_reported"].append("log")
         ctx.violation("C14:log-undisciplined", f"{m['batch']}: a run read a cell whose last write was by another step",
                       {"kind": "counterexample", "check": "trace", "presets": PRESETS, "history_A": hist})
         return
     hist_a = hist[:m["step"] + 1]
     base = {"kind": "counterexample", "check": "trace", "presets": PRESETS, "history_A": hist_a,
             "target": [m["country"], m["preset"]], "coq_code": code}
+    seen = ctx.notes.setdefault("_reported", [])
     if code & 1:
         cell = first_unwritten_read(out, m, names, canon)
-        ctx.violation(f"C14:read-before-write@{cell}",
-                      f"run {m['country']}/{m['preset']} (step {m['step']} of {m['batch']}) reads process-global cell {cell} "
-                      f"before writing it: its result can depend on what earlier runs left there", dict(base, cell=cell))
+        key = f"C14:read-before-write@{cell}"
+        if key not in seen:
+            seen.append(key)
+            if m["pending"]:
+                what = (f"run {m['country']}/{m['preset']} (step {m['step']} of {m['batch']}) starts with module-level cell {cell} "
+                        f"already modified by an earlier run of the same process (its reads are not observable: counted as read)")
+            else:
+                what = (f"run {m['country']}/{m['preset']} (step {m['step']} of {m['batch']}) reads process-global cell {cell} "
+                        f"before writing it: its result can depend on what earlier runs left there")
+            ctx.violation(key, what, dict(base, cell=cell))
     if code & 2:
         ctx.tie_ok = False
         ctx.broken.append("recorded trace is not coherent: Food.conversions was modified behind the recording proxy")
         ctx.violation("C14:tie:store-modified-behind-proxy", f"{m['batch']} step {m['step']}: a read returned a value that is not "
                       "the run's own last write", dict(base, kind="tie-broken"))
-    if code & 4:
+    if code & 4 and sum(1 for x in seen if x.startswith("C14:trace-depends")) < 2:
+        seen.append(f"C14:trace-depends-on-history:{m['country']}/{m['preset']}")
         ctx.violation(f"C14:trace-depends-on-history:{m['country']}/{m['preset']}",
                       f"the events issued by {m['country']}/{m['preset']} in {m['batch']} differ from those of the same run alone",
                       base)
@@ -573,7 +591,7 @@ def replay(rep):
     if check == "options-mutated":
         bad = [s for s in out["steps"] if s["kind"] == "run" and not s["options_unchanged"]]
         for s in bad:
-            print("options modified by step", s["id"], s.get("options_before"), "->", s.get("options_after"))
+            print("options modified by step", s["id"], s["countries"], s.get("options_diff"))
         return 1 if bad else 0
     if check == "result-modified-later":
         bad = [(s["id"], c) for s in out["steps"] if s["kind"] == "run" for c, r in s["results"].items()
